@@ -2,11 +2,16 @@
 (* Property C19, schedule part, on the specification: the waiter machine of LiftWaiter over a  *)
 (* menu of structures with up to 6 awaitables (futures, coroutines, tasks; at the root, in     *)
 (* lists, tuples and dicts to depth 4; one future placed twice) and over every enumerated      *)
-(* shape of depth <= 2 with awaitable leaves.  All completion orders are explored (n = 6: 64   *)
+(* shape of depth <= 2 with awaitable leaves.  The awaitables come in every realisation kind   *)
+(* of Lift.tla (plain objects with __await__ of four makes, gather / shield futures, finished  *)
+(* futures, never-suspending objects and coroutines), alone, mixed in one structure with each  *)
+(* other and with the non-awaitable look-alikes, rotated over every position of every shape    *)
+(* (menus "awx" / "awlook" of LiftShapes), placed twice, and inter-dependent.                   *)
+(* All completion orders are explored (n = 6: 64                                               *)
 (* sets of completed awaitables, 720 maximal behaviours); the generator configurations carry   *)
 (* the order in `hist` and print, when waiter returns, the schedule and the value returned.    *)
 EXTENDS LiftShapes, LiftWaiter, Json, SequencesExt, FiniteSetsExt
-CONSTANTS Menu          \* "quick" / "thorough" / "deps"
+CONSTANTS Menu          \* "quick" / "thorough" / "deps" / "legacy"
 
 \* results: lists, None, strings and equal values for different awaitables are among them
 ValOf(i) == CASE i % 5 = 0 -> VLst(<<VInt(i)>>)
@@ -37,8 +42,8 @@ More ==
 \* in id order, i.e. a later (earlier) sibling or cousin - has been started
 Next_(S, i) == IF \E j \in S : j > i THEN CHOOSE j \in S : j > i /\ \A k \in S : k > i => j <= k ELSE 0
 Prev_(S, i) == IF \E j \in S : j < i THEN CHOOSE j \in S : j < i /\ \A k \in S : k < i => j >= k ELSE 0
-DepNext(t) == SetDep(t, [i \in CoroIds(t) |-> Next_(CoroIds(t), i)])
-DepPrev(t) == SetDep(t, [i \in CoroIds(t) |-> Prev_(CoroIds(t), i)])
+DepNext(t) == SetDep(t, [i \in DepIds(t) |-> Next_(DepIds(t), i)])
+DepPrev(t) == SetDep(t, [i \in DepIds(t) |-> Prev_(DepIds(t), i)])
 WithDeps(S) == {DepNext(t) : t \in S} \cup {DepPrev(t) : t \in S}
 Coros ==
   { M(<< <<"a", Aw(1, "coro")>>, <<"b", Aw(2, "coro")>>, <<"c", Aw(3, "coro")>> >>),
@@ -46,21 +51,65 @@ Coros ==
     M(<< <<"a", Aw(1, "coro")>>, <<"b", VLst(<<Aw(2, "coro"), F4>>)>>, <<"c", M(<< <<"x", Aw(3, "coro")>>, <<"y", Aw(5, "coro")>> >>)>> >>),
     VLst(<<M(<< <<"a", Aw(1, "coro")>>, <<"b", VFlt(3, 2)>> >>), M(<< <<"a", Aw(2, "coro")>>, <<"b", Aw(3, "coro")>> >>)>>),
     M(<< <<"a", Aw(1, "coro")>>, <<"b", Aw(2, "coro")>>, <<"c", Aw(3, "coro")>>, <<"d", Aw(4, "coro")>>, <<"e", Aw(5, "coro")>>, <<"f", Aw(6, "coro")>> >>) }
+\* --- every kind of awaitable ---------------------------------------------------------------------
+ModernKinds == AllAwKinds \ LegacyKinds
+KindsAlone ==                                                   \* one awaitable / look-alike: bare, in a list, a tuple, a dict
+  UNION {{Aw(1, k), VLst(<<Aw(1, k)>>), VTup(<<VInt(0), Aw(1, k)>>), M(<< <<"a", Aw(1, k)>>, <<"b", VInt(2)>> >>)} : k \in ModernKinds}
+  \cup UNION {{Look(1, k), VLst(<<Look(1, k), VInt(3)>>), M(<< <<"a", VTup(<<Look(1, k)>>)>> >>)} : k \in LookKinds}
+KindsMixed ==
+  { VLst(<<Aw(1, "obj"), Aw(2, "coro"), Aw(3, "fut"), Aw(4, "objnow"), Look(7, "gen"), Aw(5, "objfut"), Aw(6, "task")>>),
+    \* plain awaitable objects next to a coroutine and a task, dict / list / tuple / dict
+    M(<< <<"a", VLst(<<Aw(1, "obj"), VInt(1)>>)>>, <<"b", VTup(<<Aw(2, "coro"), M(<< <<"c", Aw(3, "obj")>> >>)>>)>>, <<"d", Aw(4, "task")>> >>),
+    M(<< <<"a", Aw(1, "objcoro")>>, <<"b", VTup(<<Aw(2, "objobj"), M(<< <<"c", Aw(3, "gather")>>, <<"d", Look(8, "cls")>> >>)>>)>>,
+         <<"e", VLst(<<Aw(4, "shield"), Aw(5, "done"), Look(9, "afn")>>)>>, <<"f", Aw(6, "coronow")>> >>),
+    \* one awaitable object / one finished future placed twice
+    VLst(<<Aw(1, "obj"), VTup(<<Aw(1, "obj"), Aw(2, "objfut")>>), M(<< <<"k", Aw(2, "objfut")>> >>), Aw(3, "done"), VTup(<<Aw(3, "done")>>)>>),
+    \* nothing to wait for: look-alikes only / everything complete beforehand
+    VLst(<<Look(1, "gen"), Look(2, "agen"), M(<< <<"a", Look(3, "afn")>>, <<"b", Look(4, "cls")>> >>), VTup(<<Look(5, "inst"), Look(6, "attr")>>)>>),
+    VTup(<<Aw(1, "objnow"), Aw(2, "done"), Aw(3, "coronow"), Look(4, "inst")>>),
+    \* depth 4
+    VLst(<<VLst(<<VLst(<<VTup(<<Aw(1, "obj"), Aw(2, "objnow")>>)>>), Aw(3, "gather")>>),
+           M(<< <<"a", M(<< <<"b", VTup(<<Aw(4, "objcoro"), Look(7, "attr")>>)>> >>)>> >>), Aw(5, "shield")>>) }
+KindsMore ==
+  { VLst(<<Aw(1, "obj"), Aw(2, "objfut"), Aw(3, "objcoro"), Aw(4, "objobj"), Aw(5, "gather"), Aw(6, "shield")>>),
+    M(<< <<"a", Aw(1, "objobj")>>, <<"b", Aw(2, "obj")>>, <<"c", Aw(3, "fut")>>, <<"d", Aw(4, "objfut")>>, <<"e", Aw(5, "coro")>>, <<"f", Aw(6, "obj")>>,
+         <<"g", Aw(7, "objnow")>>, <<"h", Look(8, "gen")>> >>),
+    VTup(<<VTup(<<Aw(1, "obj"), Aw(2, "task"), Aw(3, "objcoro")>>), M(<< <<"x", Aw(4, "done")>>, <<"y", VLst(<<Aw(5, "objfut"), Aw(6, "coro"), Aw(7, "obj")>>)>> >>)>>) }
+\* inter-dependent awaitables of the kinds that can wait: objects, coroutines, objects around coroutines / objects
+CorosX ==
+  { M(<< <<"a", Aw(1, "obj")>>, <<"b", Aw(2, "coro")>>, <<"c", Aw(3, "objcoro")>> >>),
+    VLst(<<Aw(1, "objobj"), Aw(2, "obj"), Aw(3, "obj")>>),
+    M(<< <<"a", Aw(1, "obj")>>, <<"b", VLst(<<Aw(2, "objcoro"), Aw(4, "objfut")>>)>>, <<"c", M(<< <<"x", Aw(3, "coro")>>, <<"y", Aw(5, "objobj")>> >>)>> >>),
+    VTup(<<M(<< <<"a", Aw(1, "obj")>>, <<"b", Look(9, "gen")>> >>), M(<< <<"a", Aw(2, "obj")>>, <<"b", Aw(3, "objobj")>> >>)>>) }
+\* the legacy kind (generator-based coroutines), kept apart: see LegacyKinds in Lift.tla
+LegacyTrees ==
+  { Aw(1, "gencoro"), VLst(<<Aw(1, "gencoro"), Aw(2, "fut")>>),
+    M(<< <<"a", Aw(1, "gencoro")>>, <<"b", VTup(<<Aw(2, "gencoro"), Aw(3, "coro")>>)>> >>) }
+GeneratedB(d, w, menu, base) == {Build(s, menu, base, 0) : s \in Shapes(d, w)}
+KindsQuick == KindsAlone \cup KindsMixed \cup {Ord(t) : t \in KindsMixed} \cup WithDeps(CorosX)
+              \cup GeneratedB(2, 2, "awx", 1) \cup GeneratedB(2, 2, "awx", 7) \cup GeneratedB(2, 2, "awlook", 4)
+              \cup UNION {GeneratedB(1, 3, "awx", b) : b \in {0, 3, 6, 9}}
+KindsThorough == KindsAlone \cup KindsMixed \cup KindsMore \cup {Ord(t) : t \in KindsMixed \cup KindsMore} \cup WithDeps(CorosX \cup KindsMixed \cup KindsMore)
+              \cup UNION {GeneratedB(2, 2, "awx", b) : b \in 0..11} \cup UNION {GeneratedB(2, 2, "awlook", b) : b \in 0..5}
+              \cup UNION {GeneratedB(1, 3, "awx", b) : b \in 0..11}
+              \cup UNION {{Build(s, "awx", b, 0) : s \in Spine(3) \cup Chain(3)} : b \in {0, 4, 8}}
+
 Generated(d, w, menu) == {Build(s, menu, 1, 0) : s \in Shapes(d, w)}
 SpineTrees(d) == {Build(s, "aw", 1, 0) : s \in Spine(d) \cup Chain(d)}
 
-TreeMenu == IF Menu = "quick" THEN {Ord(t) : t \in Coros} \cup Explicit \cup Generated(2, 2, "aw") \cup Generated(1, 3, "awmix")
+TreeMenu == IF Menu = "legacy" THEN LegacyTrees
+            ELSE IF Menu = "quick" THEN KindsQuick \cup {Ord(t) : t \in Coros} \cup Explicit \cup Generated(2, 2, "aw") \cup Generated(1, 3, "awmix")
                                    \cup WithDeps(Coros \cup Generated(2, 2, "co")) \cup {DepNext(t) : t \in Explicit}
             ELSE IF Menu = "deps" THEN WithDeps(Coros)
-            ELSE WithDeps(Explicit \cup More \cup Coros \cup Generated(2, 2, "co") \cup Generated(2, 2, "aw") \cup Generated(1, 3, "co")) \cup {Ord(t) : t \in Coros \cup Explicit \cup More} \cup Explicit \cup More \cup Generated(2, 2, "aw") \cup Generated(2, 2, "awmix") \cup Generated(1, 3, "aw") \cup SpineTrees(3)
+            ELSE KindsThorough \cup WithDeps(Explicit \cup More \cup Coros \cup Generated(2, 2, "co") \cup Generated(2, 2, "aw") \cup Generated(1, 3, "co")) \cup {Ord(t) : t \in Coros \cup Explicit \cup More} \cup Explicit \cup More \cup Generated(2, 2, "aw") \cup Generated(2, 2, "awmix") \cup Generated(1, 3, "aw") \cup SpineTrees(3)
                  \cup {Build(s, "awmix", 1, 0) : s \in Spine(4) \cup Uniform(3)}                \* depth 4 / 8 leaves, 2-4 awaitables
 
 \* generator: the step by which waiter returns prints the schedule and the value returned
 ReturnGen == Return /\ PrintT(ToJson([tree |-> tree, order |-> hist, out |-> cur,
                                       \* is the call back? before each completion no, after the last one yes
                                       done |-> [k \in 1..(Len(hist) + 1) |-> k = Len(hist) + 1],
-                                      \* the coroutines that are running once waiter has been called: all of them
-                                      started |-> SetToSortSeq(CoroIds(tree), LAMBDA a, b : a < b),
+                                      \* the awaitables that only run once awaited and are running once waiter has been called: all of them
+                                      started |-> SetToSortSeq(LazyIds(tree), LAMBDA a, b : a < b),
                                       vals |-> [i \in 1..Cardinality(AwIds(tree)) |->
                                                   LET id == SetToSeq(AwIds(tree))[i] IN <<id, V[id]>>]]))
 NextGen == Start \/ (\E i \in AwIds(tree) : CompleteH(i)) \/ ReturnGen
